@@ -97,6 +97,24 @@ def strip_unsettable(ps: List[Dict[str, Any]], vals: Any) -> Any:
     return out
 
 
+def outside_mask(ps: List[Dict[str, Any]], vals: Any) -> bool:
+    """some supplied value of a parameter with a BIT-MASK has bits set that the mask does not cover"""
+    if not isinstance(vals, dict) or vals.get("t") != "dict":
+        return False
+    byname = {p["n"]: p for p in ps}
+    for (name, val) in vals["v"]:
+        p = byname.get(name)
+        dct = (p or {}).get("dop", {}).get("dct") if p else None
+        if not dct or dct.get("mask") is None:
+            continue
+        m = dct["mask"]
+        if val["t"] == "int" and val["v"] >= 0 and val["v"] & ~m:
+            return True
+        if val["t"] == "bytes" and int.from_bytes(bytes(val["v"]), "big") & ~m:
+            return True
+    return False
+
+
 def has_kind(ps: List[Dict[str, Any]], kinds: Tuple[str, ...]) -> bool:
     for p in ps:
         if p["k"] in kinds or p["dop"].get("k") in kinds:
@@ -130,6 +148,7 @@ def process_chunk(args: Tuple[List[Dict[str, Any]], int, int]) -> Dict[str, Any]
     def fail(prop: str, clause: str, rec: Dict[str, Any], entry: str, detail: Dict[str, Any]) -> None:
         if len(fails) < 400:
             fails.append((prop, clause, {"machine": "Codec", "entry": entry, **codec.shape(rec["ps"]), "detail": detail,
+                                         "outside_mask": outside_mask(rec["ps"], detail.get("vals")),
                                          "ps": rec["ps"], "rq": rec["rq"]}))
 
     for rec, rq_obj, pr_obj in zip(recs, reqs, resps):
@@ -263,7 +282,9 @@ def process_chunk(args: Tuple[List[Dict[str, Any]], int, int]) -> Dict[str, Any]
                 if not r["ok"] or r["overlap"]:
                     continue
                 for (n_, val) in r["vals"]["v"]:
-                    if n_ in free_names and val["t"] in ("int", "bytes", "text"):
+                    # (a value with bits outside its BIT-MASK is not carried: known finding of C01 / C04, not a statement about "free")
+                    if n_ in free_names and val["t"] in ("int", "bytes", "text") and \
+                            not outside_mask(ps, {"t": "dict", "v": [[n_, val]]}):
                         rest = json.dumps([x for x in r["vals"]["v"] if x[0] != n_], sort_keys=True)
                         by_rest.setdefault(n_ + "|" + rest, []).append({"val": val, "pdu": r["pdu"]})
             for key, lst in by_rest.items():
@@ -306,6 +327,7 @@ def process_chunk_c04(args: Tuple[List[Dict[str, Any]], int, int]) -> Dict[str, 
                 def fail(clause: str, extra: Dict[str, Any]) -> None:
                     if len(fails) < 400:
                         fails.append(("C04", clause, {"machine": "Codec", "entry": entry, **codec.shape(ps), "detail": {**base, **extra},
+                                                      "outside_mask": outside_mask(ps, c["vals"]),
                                                       "ps": ps, "rq": rec["rq"]}))
                 if enc["pdu"] is None:
                     if not enc["lib"]:
